@@ -8,6 +8,7 @@ threshold rule) is finite and enumerated completely; the field content is varied
 from __future__ import annotations
 
 import itertools
+import zlib
 
 import numpy as np
 
@@ -144,6 +145,15 @@ def run(case, rec):
         kwargs["num_processes"] = 2  # the number of worker processes is not part of the requested model
         rec.count("refined_with_worker_processes")
     label = f"config={cfg} variant={variant}"
+    if case.get("pixel") == "bool":
+        # the same content as a binary image with boolean pixels; the requested model decides the class as before
+        _SF = ScalarField
+
+        def ScalarField(g, a):  # noqa: N802
+            return _SF(g, np.asarray(a) > 0.5, dtype=bool)
+
+        rec.count("images_with_boolean_pixels")
+        label += " boolean pixels"
     if cfg["refine"] and case.get("shared_options"):
         # one dictionary of solver options serves every refining request of the session (whatever model it asks for)
         kwargs["refine_args"] = {"least_squares_params": _SHARED_LSQ}
@@ -241,6 +251,8 @@ def run_shard(spec, rec):
             case["workers"] = True
         elif allc[i]["width"] is None and (i * 5 + spec["seed"]) % 4 == 1:
             case["via_tracker"] = True
+        if allc[i]["threshold"][0].isdigit() and zlib.crc32(f"bool{i}-{spec['seed']}".encode()) % 3 == 0:
+            case["pixel"] = "bool"  # round 7 (C19_19): a binary image (segmentation mask) stored with boolean pixels
         with rec.case("configs", case):
             try:
                 run(case, rec)
